@@ -236,7 +236,11 @@ def attribute(m, mod='l1'):
         tags.add('C17')
         why = '%s: %s (%s)' % (et, m.get('fmt_kind'), json.dumps(m.get('detail'))[:300])
     elif m['kind'] == 'init':
-        why = 'initial state differs: ' + ','.join((m.get('fields') or [])[:8])
+        # a fresh chain does not start in the specification's initial state: the fields that differ say which property
+        # is concerned (the next-sequence queries, the params, ...); untagged differences leave the run undecided
+        for p in m.get('fields') or []:
+            tags |= field_tags(mod, p)
+        why = 'a fresh chain starts in a state that differs from the initial state of the specification in ' + ','.join((m.get('fields') or [])[:8])
     elif m['kind'] == 'invariant':
         tags |= set(m.get('tags') or [])
         why = 'invariant %s fails on an observed state' % m.get('name')
@@ -530,7 +534,8 @@ def run_family(name, tier, seed, work):
     log('[%s] E2: %d states, %d edges replayed (%d succeeding), %d mismatches, %.0fs' % (
         name, rep['states'], rep['replayed'], rep['edges_ok'], rep['n_mismatch'], time.time() - t0))
     if rep['mismatches'] and rep['mismatches'][0]['kind'] == 'init':
-        raise Undecided('the initial state of the model of %s differs from a fresh chain in %s' % (name, rep['mismatches'][0].get('fields')))
+        # decided by the verdict rule: a violation of the properties the differing fields belong to, undecided otherwise
+        return dict(name=name, tlc=res, walk=rep, meta=meta, scale=fam['scale'], walker=fam['walker'], tickscale=fam.get('tickscale'))
     if rep['unreached_states'] or rep['replayed'] == 0:
         raise Undecided('walker could not reach %d states of %s' % (rep['unreached_states'], name))
     return dict(name=name, tlc=res, walk=rep, meta=meta, scale=fam['scale'], walker=fam['walker'], tickscale=fam.get('tickscale'))
@@ -674,7 +679,7 @@ def run_property(pid, tier, seed):
     for fr in results:
         for m in fr['walk']['mismatches']:
             tags, why = attribute(m, fr.get('mod') or fr['name'].split('.')[0])
-            if m['kind'] == 'init':
+            if m['kind'] == 'init' and pid not in tags:
                 log('UNDECIDED property=%s: %s' % (pid, why))
                 shutil.rmtree(work, ignore_errors=True)
                 return 2
